@@ -115,6 +115,13 @@ class Builder:
             return immutabledict({kk: self.build(v, fresh) for kk, v in t[1]})
         if k == "d":
             return {kk: self.build(v, fresh) for kk, v in t[1]}
+        if k == "mp":
+            # a read-only view of a dict: advertises __hash__, cannot actually be hashed
+            import types
+            return types.MappingProxyType({kk: self.build(v, fresh) for kk, v in t[1]})
+        if k == "uc":
+            from dst.usertypes import UConst
+            return UConst(t[1])
         if k == "r":
             if fresh:
                 return self.build(self.term_of(t[1]), True)
@@ -163,7 +170,7 @@ def expand(t, env=None):
         return ["n", t[1], [expand(x, env) for x in t[2]]]
     if k == "t":
         return ["t", [expand(x, env) for x in t[1]]]
-    if k in ("im", "d"):
+    if k in ("im", "d", "mp"):
         return [k, [[kk, expand(v, env)] for kk, v in t[1]]]
     return t
 
@@ -175,7 +182,7 @@ def subterms(t):
         return list(t[2])
     if k == "t":
         return list(t[1])
-    if k in ("im", "d"):
+    if k in ("im", "d", "mp"):
         return [v for _, v in t[1]]
     if k == "let":
         return [expand(t)]
@@ -223,6 +230,8 @@ class TermGen:
             return ["np", "float64", repr(float(v))]
         if kind == "c":
             return ["c", repr(float(v)), "1.0"]
+        if kind == "uc":
+            return ["uc", r.choice(["alpha", "beta"])]
         raise ValueError(kind)
 
     def leaf(self):
